@@ -294,7 +294,7 @@ theorem accepted_proof_is_tied (o : SigOracle) (kid : String) (pk : PublicKey) (
       nr.setExpected o kid pk (createChallenge ctx nonce ([a, z] ++ ([cr, cu, nu] ++ cs) ++ rc) issig) resp
         = some nr' ∧
       p.c = some (createChallenge ctx nonce ([a, z] ++ ([cr, cu, nu] ++ cs) ++ rc) issig : Int) ∧
-      nr.cr = some cr ∧ nr.cu = some cu ∧ unitModN cr pk.n = true ∧ unitModN cu pk.n = true ∧
+      nr.cr = some cr ∧ nr.cu = some cu ∧ (0 < cr ∧ Int.gcd cr pk.n = 1) ∧ (0 < cu ∧ Int.gcd cu pk.n = 1) ∧
       nr.sacc = some sacc ∧ pk.counter = sacc.pkCounter ∧ o kid (sacc.data.getD []) = some acc ∧
       acc.nu = some nu ∧
       revStructures.mapM (fun s => s.commitmentFromProof pk.n
@@ -321,7 +321,8 @@ theorem accepted_proof_is_tied (o : SigOracle) (kid : String) (pk : PublicKey) (
   obtain ⟨⟨cr0, cu0, hcr0, hcu0, hu1, hu2⟩, _⟩ := (basesAreUnits_iff pk nr').mp hbu
   rw [hcr'] at hcr0; cases hcr0
   rw [hcu'] at hcu0; cases hcu0
-  refine ⟨h1, h2, resp, nr', sacc, acc, cr, cu, nu, cs, a, z, rc, hg1, hg2, ?_, ?_, ?_, ?_, hu1, hu2,
+  refine ⟨h1, h2, resp, nr', sacc, acc, cr, cu, nu, cs, a, z, rc, hg1, hg2, ?_, ?_, ?_, ?_,
+    (unitModN_iff _ _).mp hu1, (unitModN_iff _ _).mp hu2,
     hs, hcnt, ho, ?_, ?_, hal⟩
   · rw [← hcc']; exact hse
   · rw [← hcc']; exact hpc
@@ -333,11 +334,13 @@ theorem accepted_proof_is_tied (o : SigOracle) (kid : String) (pk : PublicKey) (
 /-! ### units: the repaired forgery -/
 
 /-- Acceptance implies that the prover-chosen bases `C_r`, `C_u` are units modulo `n`
-    (`0 < C < n`, `gcd(C, n) = 1`) and that every response is present and non-negative. -/
+    (`0 < C`, `gcd(C, n) = 1`; no upper bound – a refreshed prepared commitment may carry an
+    unreduced `C_u`, which is still a unit) and that every response is present and
+    non-negative. -/
 theorem nonrev_units (o : SigOracle) (kid : String) (pk : PublicKey) (nr : NonRevProof) (c' : Int)
     (a : Option Accumulator) (h : nr.verifyWithChallenge o kid pk c' = (true, a)) :
     (∃ cr cu, nr.cr = some cr ∧ nr.cu = some cu ∧
-      (0 < cr ∧ cr < pk.n ∧ Int.gcd cr pk.n = 1) ∧ (0 < cu ∧ cu < pk.n ∧ Int.gcd cu pk.n = 1)) ∧
+      (0 < cr ∧ Int.gcd cr pk.n = 1) ∧ (0 < cu ∧ Int.gcd cu pk.n = 1)) ∧
     ∀ kv ∈ nr.responses, ∃ r, kv.2 = some r ∧ 0 ≤ r := by
   obtain ⟨_, _, _, _, _, hb, _⟩ := (verifyWithChallenge_true_iff o kid pk nr c' a).mp h
   obtain ⟨⟨cr, cu, h1, h2, h3, h4⟩, h5⟩ := (basesAreUnits_iff pk nr).mp hb
@@ -347,11 +350,12 @@ theorem nonrev_units (o : SigOracle) (kid : String) (pk : PublicKey) (nr : NonRe
     hash computation. -/
 theorem setExpected_requires_units (o : SigOracle) (kid : String) (pk : PublicKey)
     (nr nr' : NonRevProof) (c resp : Int) (h : nr.setExpected o kid pk c resp = some nr') :
-    ∃ cr cu, nr.cr = some cr ∧ nr.cu = some cu ∧ unitModN cr pk.n = true ∧ unitModN cu pk.n = true := by
+    ∃ cr cu, nr.cr = some cr ∧ nr.cu = some cu ∧ (0 < cr ∧ Int.gcd cr pk.n = 1) ∧
+      (0 < cu ∧ Int.gcd cu pk.n = 1) := by
   obtain ⟨_, _, _, _, _, _, _, _, _, _, _, rfl, _, hbu⟩ :=
     (setExpected_eq_some_iff o kid pk nr nr' c resp).mp h
   obtain ⟨⟨cr, cu, h1, h2, h3, h4⟩, _⟩ := (basesAreUnits_iff pk _).mp hbu
-  exact ⟨cr, cu, h1, h2, h3, h4⟩
+  exact ⟨cr, cu, h1, h2, (unitModN_iff _ _).mp h3, (unitModN_iff _ _).mp h4⟩
 
 /-- **Why the check is needed (`commitmentZero`).** In `CommitmentsFromProof`, a rhs factor
     whose base is `0` with a positive exponent makes the reconstructed commitment `0`,
@@ -459,6 +463,12 @@ set_option exponentiation.threshold 1024 in
 /-- … and so is the hypothesis of `accepted_accumulator_is_signed` / `nonrev_units`. -/
 example : (setExpectedResult exNr 29 99 5).verifyWithChallenge exOracle "toy-2" exPk 99 =
     (true, some exAcc) := by decide
+
+set_option exponentiation.threshold 1024 in
+/-- an unreduced `C_u = 3 + 35` (as a refreshed prepared commitment may carry) is still
+    accepted: it is a unit, only not the canonical representative. -/
+example : (setExpectedResult { exNr with cu := some 38 } 29 99 5).verifyWithChallenge
+    exOracle "toy-2" exPk 99 = (true, some exAcc) := by decide
 
 /-- `zero_bases_forgery`: hypotheses satisfiable. -/
 example : (⟨some 0, some 0, some 29, some 99,
